@@ -49,7 +49,7 @@ Input space / bound (all inputs simplified, samples at time 0; deterministic in 
             + 2 two-root inputs;   x num_intervals in {1, 2, 5, 100, 1000} x num_iterations in {0, 1, 3, 10}
             x match_segregating_sites in {False, True} for the simulations (40 option sets), 6 option sets for the
             shapes; mutation_rate argument rotates over {5e-4, 1e-3, 1e-5}.
-  thorough: 80 simulations (up to 9 samples), additionally all 236 shapes on 5 leaves, 2 mutation patterns per
+  thorough: 200 simulations (up to 9 samples), additionally all 236 shapes on 5 leaves, 2 mutation patterns per
             shape, the full 40 option sets for every shape with <= 4 leaves.
   exhaustive = False (shapes are exhaustive for <= 4 (5) leaves; everything else is sampled).
 Tolerances: sample times, topology and the identity at zero iterations are compared exactly.  The monotone-map
@@ -102,7 +102,7 @@ def strip_mutation_times(ts):
 def make_inputs(seed, tier):
     quick = tier == "quick"
     out = []
-    nsim = 14 if quick else 80
+    nsim = 14 if quick else 200
     for i in range(nsim):
         n = 3 + i % (5 if quick else 7)
         ts = inputs.sim(seed * 1000 + i, n=n, L=300, rec=(0 if i % 3 == 0 else 2e-4), mu=[5e-4, 1e-4, 2e-3][i % 3],
